@@ -39,6 +39,7 @@ type access struct {
 	task  int
 	site  int32
 	write bool
+	prot  bool // made while the task held a lock
 }
 
 type varState struct {
@@ -183,6 +184,9 @@ func (s *Sched) point(t *Task, site int32, isS bool, varID int32, write bool) {
 			s.raceCheck(t, site, varID, write)
 		}
 	}
+	if t.crit > 0 {
+		return // inside a critical section: mutual exclusion, no switch
+	}
 	if s.q.SOnly && !isS {
 		return
 	}
@@ -203,8 +207,9 @@ func (s *Sched) point(t *Task, site int32, isS bool, varID int32, write bool) {
 	<-t.ch
 }
 
-// raceCheck: the library has no synchronisation, so accesses by two different
-// tasks are never ordered; a pair with at least one write is a data race.
+// raceCheck: accesses by two different tasks are never ordered by anything but a
+// lock; a pair with at least one write is a data race unless both were made under
+// a lock (lock identity is not tracked: two different locks count as one).
 func (s *Sched) raceCheck(t *Task, site int32, varID int32, write bool) {
 	vs := s.vars[varID]
 	if vs == nil {
@@ -212,21 +217,22 @@ func (s *Sched) raceCheck(t *Task, site int32, varID int32, write bool) {
 		s.vars[varID] = vs
 	}
 	have := false
+	prot := t.crit > 0
 	for _, a := range vs.acc {
 		if a.task == t.ID {
-			if a.write == write {
+			if a.write == write && a.prot == prot {
 				have = true
 			}
 			continue
 		}
-		if (a.write || write) && !vs.raced {
+		if (a.write || write) && !(a.prot && prot) && !vs.raced {
 			vs.raced = true
 			s.Races = append(s.Races, Race{Var: varID, SiteA: a.site, SiteB: site, TaskA: a.task, TaskB: t.ID,
 				WriteA: a.write, WriteB: write})
 		}
 	}
 	if !have {
-		vs.acc = append(vs.acc, access{task: t.ID, site: site, write: write})
+		vs.acc = append(vs.acc, access{task: t.ID, site: site, write: write, prot: prot})
 	}
 }
 
